@@ -323,7 +323,20 @@ func (in *inst) chanStmt(s ast.Stmt) ([]ast.Stmt, bool) {
 			return nil, false
 		}
 		in.st.ChanOps++
-		return []ast.Stmt{begin(x.Pos()), s, end()}, true
+		// the operands are evaluated before the operation begins: only the
+		// send itself is bracketed (a constant or nil value stays in place,
+		// it has no side effect and may need the channel's element type)
+		var pre []ast.Stmt
+		in.tmp++
+		chName := fmt.Sprintf("simrtCh%d", in.tmp)
+		pre = append(pre, &ast.AssignStmt{Lhs: []ast.Expr{ast.NewIdent(chName)}, Tok: token.DEFINE, Rhs: []ast.Expr{x.Chan}})
+		x.Chan = ast.NewIdent(chName)
+		if tv, ok := in.pkg.TypesInfo.Types[x.Value]; ok && tv.Value == nil && !tv.IsNil() {
+			valName := fmt.Sprintf("simrtVal%d", in.tmp)
+			pre = append(pre, &ast.AssignStmt{Lhs: []ast.Expr{ast.NewIdent(valName)}, Tok: token.DEFINE, Rhs: []ast.Expr{x.Value}})
+			x.Value = ast.NewIdent(valName)
+		}
+		return append(pre, begin(x.Pos()), s, end()), true
 	case *ast.SelectStmt:
 		in.st.ChanOps++
 		for _, c := range x.Body.List {
